@@ -81,6 +81,10 @@ def run_case(case: dict):
         res["trace"] = ctx.trace
     if case.get("internal"):
         res["internal"] = ctx.internal
+        if ctx.internal is None:
+            from . import internal as _internal
+
+            res["internal_unavailable"] = _internal.STATE.get("broken") or "not recorded"
         res["unscripted"] = getattr(beh, "unscripted", 0)
     return res
 
